@@ -617,7 +617,12 @@ func (w *c47World) qKeysByPrefix(m *c47Model, rd [2]*c47Readers, prefix string, 
 		want = maxKeyNum - count
 	}
 	w.hit(len(candidates) > 0)
-	what := fmt.Sprintf("LookupKeysByPrefix(%s, max=%d, pre=%v, count=%d)", c47Q(prefix), maxKeyNum, pre, count)
+	var preS []string
+	for k, v := range pre {
+		preS = append(preS, fmt.Sprintf("%q:%v", k, v))
+	}
+	sort.Strings(preS)
+	what := fmt.Sprintf("LookupKeysByPrefix(%s, max=%d, pre={%s}, count=%d)", c47Q(prefix), maxKeyNum, strings.Join(preS, " "), count)
 	for b := range rd {
 		if b == c47Pb && w.div.prefixNamespace && len(stored) > 0 {
 			w.vk.Excluded("kv-prefix-scan-namespace: LookupKeysByPrefix with stored keys under the prefix")
